@@ -57,7 +57,7 @@ func hookWBuild(m *openfgav1.AuthorizationModel, order []string) (wResult, []str
 	}
 	sort.Strings(canon)
 	if err != nil {
-		return wResult{Err: errClass(err), Full: "err"}, canon
+		return wResult{Err: errClass(err), Full: "err", Assign: "(err " + errClass(err) + ")"}, canon
 	}
 	return dumpWGraph(g, true), canon
 }
